@@ -748,6 +748,20 @@ impl<'tcx> Cx<'tcx> {
             js(&nonce)
         );
         let mut nbodies = 0usize;
+        // Pass 1: clone every body's `mir_promoted` before anything else is queried. Serialising a body
+        // evaluates constants, and const evaluation of crate-local `const fn`s steals *their* promoted MIR.
+        let mut bodies: std::collections::HashMap<LocalDefId, Option<Body<'tcx>>> = Default::default();
+        for ldid in tcx.hir_body_owners() {
+            let kind = tcx.def_kind(ldid.to_def_id());
+            if matches!(kind, DefKind::Fn | DefKind::AssocFn | DefKind::Closure) {
+                let steal = tcx.mir_promoted(ldid).0;
+                if steal.is_stolen() {
+                    bodies.insert(ldid, None);
+                } else {
+                    bodies.insert(ldid, Some(steal.borrow().clone()));
+                }
+            }
+        }
         for ldid in tcx.hir_body_owners() {
             let did = ldid.to_def_id();
             let kind = tcx.def_kind(did);
@@ -844,16 +858,17 @@ impl<'tcx> Cx<'tcx> {
                 rec.push(']');
             }
             if kstr != "const" {
-                let steal = tcx.mir_promoted(ldid).0;
-                if steal.is_stolen() {
-                    rec.push_str(",\"stolen\":true");
-                    let b = tcx.optimized_mir(did);
-                    rec.push(',');
-                    self.body(ldid, b, &mut rec);
-                } else {
-                    let b = steal.borrow();
-                    rec.push(',');
-                    self.body(ldid, &b, &mut rec);
+                match bodies.get(&ldid) {
+                    Some(Some(b)) => {
+                        rec.push(',');
+                        self.body(ldid, b, &mut rec);
+                    }
+                    _ => {
+                        rec.push_str(",\"stolen\":true");
+                        let b = tcx.optimized_mir(did);
+                        rec.push(',');
+                        self.body(ldid, b, &mut rec);
+                    }
                 }
                 nbodies += 1;
             }
@@ -981,7 +996,10 @@ impl<'tcx> Cx<'tcx> {
 struct Cb;
 
 impl Callbacks for Cb {
-    fn after_analysis<'tcx>(
+    // Facts are extracted right after expansion, *before* `analysis` runs: at this point nothing has
+    // stolen `mir_promoted` yet (borrowck / the coroutine transform steal it, and whether they run before
+    // an `after_analysis` callback depends on the incremental cache — cold and warm builds differ).
+    fn after_expansion<'tcx>(
         &mut self,
         _compiler: &rustc_interface::interface::Compiler,
         tcx: TyCtxt<'tcx>,
